@@ -213,6 +213,19 @@ func structType(fs []*Field) reflect.Type {
 	return reflect.StructOf(sf)
 }
 
+func swapCase(s string) string {
+	b := []byte(s)
+	for i, c := range b {
+		switch {
+		case c >= 'a' && c <= 'z':
+			b[i] = c - 32
+		case c >= 'A' && c <= 'Z':
+			b[i] = c + 32
+		}
+	}
+	return string(b)
+}
+
 // goNameable: s can be an exported Go field name as it stands.
 func goNameable(s string) bool {
 	return s != "" && s[0] >= 'A' && s[0] <= 'Z' && exportable(s) == s
@@ -641,7 +654,7 @@ func genProg7(r *rng, e *Env7) string {
 // --- mutations ---------------------------------------------------------------------
 
 var mutKinds = []string{"same", "same", "contents", "extra", "numkind", "ptrflip", "carrier", "reorder", "reorder", "reorder-top",
-	"maybe-flip", "retype-maybe", "tagstyle", "embed", "time-named", "raw", "array", "empty", "empty-retype", "hetero", "hetero", "drop", "retype-top", "retype-deep", "field-add", "field-remove", "field-rename", "nil-flip", "bad"}
+	"maybe-flip", "retype-maybe", "tagstyle", "embed", "time-named", "near-miss", "raw", "array", "empty", "empty-retype", "hetero", "hetero", "drop", "retype-top", "retype-deep", "field-add", "field-remove", "field-rename", "nil-flip", "bad"}
 
 // collect object nodes (with their depth) below the bindings
 func objNodes(e *Env7) []*VT {
@@ -778,6 +791,35 @@ func (g *gen7) mutate(a *Env7, kind string) *Env7 {
 			}
 			return false
 		})
+	case "near-miss":
+		// a compile-time name is missing, a name that differs from it only in case or by
+		// surrounding blanks is there instead (same value): still missing
+		if len(e.Binds) > 0 {
+			b := e.Binds[r.intn(len(e.Binds))]
+			var nm string
+			k := 3
+			if e.Carrier != "map" {
+				k = 1 // struct tags are trimmed by the library: only the case variant is another name
+			}
+			switch r.intn(k) {
+			case 0:
+				nm = swapCase(b.Name)
+			case 1:
+				nm = " " + b.Name
+			default:
+				nm = b.Name + " "
+			}
+			clash := nm == b.Name
+			for _, o := range e.Binds {
+				if o.Name == nm {
+					clash = true
+				}
+			}
+			if !clash {
+				b.Name = nm
+				b.Tag = 0
+			}
+		}
 	case "time-named":
 		// time.Time <-> a type defined from it: different types
 		mutateShape(&e, r, func(v *VT) bool {
@@ -991,12 +1033,20 @@ func conforms(a, b *Env7) (accept bool, why string) {
 			return false, "nil pointer at top level of a map environment" // conv cannot type a nil interface payload... (typed nil pointer)
 		}
 	}
+	// the name of a struct field is its tag with surrounding blanks removed (documented tag
+	// syntax `yae:"name, maybe"`); a map key is the name as it stands
+	eff := func(e *Env7, n string) string {
+		if e.Carrier != "map" {
+			return strings.TrimSpace(n)
+		}
+		return n
+	}
 	bm := map[string]*Field{}
 	for _, x := range b.Binds {
-		bm[x.Name] = x
+		bm[eff(b, x.Name)] = x
 	}
 	for _, x := range a.Binds {
-		y, ok := bm[x.Name]
+		y, ok := bm[eff(a, x.Name)]
 		if !ok {
 			return false, "name " + x.Name + " missing"
 		}
@@ -1303,7 +1353,7 @@ func runHist7(h *Hist7, x *evalCtx) hist7Result {
 					fmt.Sprintf("step %d (%s): the Callable compiled against A ran on a non-conforming environment (%s) and returned %s\n src: %s", i, mut, so.why, clip(so.o.Value), h.Src)}
 			case so.o.Class == "panic":
 				res.Viol = &Violation{"reject-panic", "c07:reject-panicked:" + mut,
-					fmt.Sprintf("step %d (%s): non-conforming environment (%s) made the Callable panic instead of returning an error\n src: %s", i, mut, so.why, h.Src)}
+					fmt.Sprintf("step %d (%s): non-conforming environment (%s) made the Callable panic instead of returning an error\n panic: %s\n src: %s", i, mut, so.why, so.o.Panic, h.Src)}
 			case so.o.Calls != "" || so.o.Stdout != "":
 				res.Viol = &Violation{"reject-evaluated", "c07:evaluated-on-reject:" + mut,
 					fmt.Sprintf("step %d (%s): rejected (%s) but host functions ran: calls=%s stdout=%q", i, mut, so.why, clip(so.o.Calls), clip(so.o.Stdout))}
@@ -1327,7 +1377,7 @@ func runHist7(h *Hist7, x *evalCtx) hist7Result {
 }
 
 // dominant names the mutation a violation is attributed to in its signature.
-var mutPriority = []string{"rawbot", "rawput", "again", "bad", "hetero", "time-named", "empty-retype", "retype-maybe", "drop", "retype-top", "retype-deep", "field-add", "field-remove", "field-rename", "nil-flip",
+var mutPriority = []string{"rawbot", "rawput", "again", "bad", "hetero", "near-miss", "time-named", "empty-retype", "retype-maybe", "drop", "retype-top", "retype-deep", "field-add", "field-remove", "field-rename", "nil-flip",
 	"reorder", "reorder-top", "raw", "array", "empty", "embed", "tagstyle", "carrier", "ptrflip", "numkind", "maybe-flip", "extra", "contents", "same"}
 
 func dominant(muts []string) string {
